@@ -316,6 +316,16 @@ func (r *Recorder) snapVisible(inc *Incarnation, f *SnapFileWrap) {
 		r.probe("snapshot-installed")
 		// C10(c)/C11(e): installed bytes equal a snapshot with that label that some node produced.
 		set := r.visibleSnaps[key]
+		if set != nil && set[h] {
+			// Forwarded as it is from a node that has exactly these bytes: whatever is wrong with
+			// them (a mixed file, F3; a regressed state, F2) was that node's; the receiver carries
+			// the taints on.
+			for _, t := range []string{"F2", "F3"} {
+				if r.anyTaint[t] {
+					r.setTaint(inc.Node, t)
+				}
+			}
+		}
 		if set == nil || !set[h] {
 			r.violate("C11", "installed-bytes-differ", r.tainted(inc.Node, "no-such-snapshot", "F3"), "%s installed a snapshot labelled %s (%d bytes, hash %x) that no node ever produced with those bytes (known hashes for the label: %d)",
 				inc.Name(), key, len(f.written), h, len(set))
